@@ -86,8 +86,13 @@ func verifHandlerSmall(ctx context.Context, conn Connection) error {
 	n := atomic.AddInt32(&verifK.inHandler, 1)
 	verifAssert(n == 1, "C06/two-handler-invocations-at-once")
 	atomic.AddInt32(&verifK.handlerRuns, 1)
+	// the documented contract "read all input or Close": once the handler has closed the
+	// connection it is not offered the remaining input again (it would be for ever, and the
+	// close callbacks would never run)
+	verifAssert(atomic.LoadInt32(&verifK.handlerClosed) == 0, "C05/handler-started-again-after-it-closed-the-connection")
 	if verifNondetBool("handler.close") {
 		conn.Close()
+		atomic.StoreInt32(&verifK.handlerClosed, 1)
 	} else {
 		l := conn.Reader().Len()
 		conn.Reader().Skip(l)
